@@ -41,7 +41,7 @@ fn craft(src: &mut Src, ctx: &mut Ctx, max_payload: usize) -> Crafted {
     let cfg = make_cfg(&cl);
     let mut w = World::new(&cfg, true, 1280);
     let b = &cfg.n[1];
-    let spec = SockSpec { udp_ports: vec![draw_port(src), 0x1234], icmp_ident: Some(src.u16()) };
+    let spec = SockSpec { udp_ports: vec![draw_port(src), 0x1234], icmp_ident: Some(src.u16()), raw_udp: true };
     let spec = if spec.udp_ports[0] == 0x1234 { SockSpec { udp_ports: vec![0x1235, 0x1234], ..spec } } else { spec };
     let socks = make_socks(&mut w.s[1].node, &spec);
     // contexts known to the receiver (and to the encoder): index 0 = the receiver's global prefix
@@ -251,6 +251,7 @@ pub fn enc_case(src: &mut Src, ctx: &mut Ctx) -> Result<(), Fail> {
     }
     c.w.s[1].node.poll(ms(now), None);
     let evs = read_events(&mut c.w.s[1].node, &c.socks);
+    let raws = read_raw(&mut c.w.s[1].node, &c.socks);
     let want = event_for(&c.pkt, &c.socks).expect("datagram addressed to a bound socket");
     let m = &c.mode;
     let mode_label = format!("enc:tf{}-hl{}-s{}{}-d{}{}{}", m.tf, if m.hlim_inline { "i" } else { "c" }, if m.sac { "c" } else { "" }, m.sam, if c.pkt.dst[0] == 0xff { "m" } else if m.dac { "c" } else { "" }, m.dam, if c.pkt.proto == PROTO_UDP { if m.udp_nhc { format!("-nhc{}", m.udp_p) } else { "-udp-inline".into() } } else { "-icmp".into() });
@@ -279,6 +280,17 @@ pub fn enc_case(src: &mut Src, ctx: &mut Ctx) -> Result<(), Fail> {
             }
         }
         return Ok(());
+    }
+    // the raw sockets show the decompressed datagram with its IPv6 header: apart from traffic class and
+    // flow label (which smoltcp does not keep) it must be the datagram that was compressed
+    for got in &raws {
+        if got.len() != c.dgram.len() || got[4..] != c.dgram[4..] {
+            return Err(Fail::new(
+                stateful_key(&c, "ingress:independently-compressed-datagram-decompressed-differently"),
+                format!("datagram {} -> {} proto {} hop {} length {} compressed by the independent encoder in legal mode {:?} reached a raw socket as {} octets with next header {} hop limit {}; {}", a2s(&c.pkt.src), a2s(&c.pkt.dst), c.pkt.proto, c.pkt.hop, c.dgram.len(), c.mode, got.len(), got.get(6).copied().unwrap_or(0), got.get(7).copied().unwrap_or(0), first_diff(got, &c.dgram)),
+            ));
+        }
+        ctx.count("raw_socket_datagrams_compared", 1);
     }
     match evs.len() {
         1 if evs[0] == want => {
